@@ -678,6 +678,12 @@ fn fixed_cases() -> Vec<Case> {
     add(0, "a1 01 9b 00 00 01 00 00 00 00 00", "fixed:D7-huge-array");
     add(4, "a3 01 81 68 46 49 44 4f 5f 32 5f 30 03 50 00 00 00 00 00 00 00 00 00 00 00 00 00 00 00 00 09 9a 10 00 00 00", "fixed:D8-truncated-list");
     add(4, "a3 01 81 68 46 49 44 4f 5f 32 5f 30 03 50 00 00 00 00 00 00 00 00 00 00 00 00 00 00 00 00 09 9b ff ff ff ff ff ff ff ff", "fixed:D8-truncated-list");
+    // a binary member given as an array: the head declares far more than it carries, and it carries more than any
+    // small pre-allocation covers (4090 / 4097 / 6000 elements)
+    for (n, declared) in [(4090usize, "9a 07 ff ff ff"), (4097, "9a 07 ff ff ff"), (6000, "9b 00 00 01 00 00 00 00 00"), (5000, "9a 00 00 13 88")] {
+        add(0, &format!("a1 01 {declared} {}", "17".repeat(n)), "fixed:bytes-as-long-array");
+        add(22, &format!("{declared} {}", "18 ff".repeat(n)), "fixed:bytes-as-long-array");
+    }
     // a list element that nests arrays with huge declared lengths (an element buffer that reserves by declared length does so per level)
     for n in [9usize, 60, 200] {
         add(4, &format!("a3 01 81 68 46 49 44 4f 5f 32 5f 30 03 50 {} 09 81 {}", "00".repeat(16), "9b 00 00 01 00 00 00 00 00".repeat(n)), "fixed:D8-nested-declared-lengths");
